@@ -42,6 +42,11 @@ def known_sig(t, l, clause):
                 if s['ev'].get('now', 0) < t0 + dl:
                     early = True
     out['join_rearmed'] = rearmed
+    # KF-C10-5: a start_task(first_run=False) sent by resume_workflow for an IDLE task was delivered (the task may start twice)
+    if ck in ('AttemptBound', 'StopAtFirstSuccess', 'RetryStopsWhenTold', 'FinalIffLast', 'DelayRespected'):
+        out['resume_sent_start_delivered'] = (not any(st['ev']['kind'] == 'op' and st['ev']['what'] == 'rerun' for st in t['steps'][:l])) and any(
+            st['ev']['kind'] == 'msg' and st['ev']['what'] == 'start_task' and not st['ev'].get('fr', True) and not st['ev'].get('dup')
+            for st in t['steps'][:l])
     # a re-armed join had FAILED before and its on-error / on-complete targets had been started already (they stay as they are)
     routed = False
     for k_, st_ in enumerate(t['steps'][:l]):
